@@ -382,7 +382,10 @@ def finish(prop, tier, seed, cfg, reports, trouble, wall, build_s):
     if violations:
         for v in violations[:4]:
             print("  class=%s" % v["class"])
-            print("  " + (v.get("detail") or "").replace("\n", "\n  ")[:3000])
+            # (printable ASCII only: a detail may quote raw wire bytes, and a reader
+            # piping this through grep should not be told "binary file matches")
+            det = (v.get("detail") or "").replace("\n", "\n  ")[:3000]
+            print("  " + "".join(ch if (ch == "\n" or 32 <= ord(ch) < 127) else "\\x%02x" % (ord(ch) & 0xff) for ch in det))
             print("VIOLATION property=%s replay=%s" % (prop, v["replay"]))
         return 1
     if agg["runs"] == 0:
